@@ -9,7 +9,7 @@ Local Open Scope N_scope.
 
 Definition alice_history_r : list input :=
   [ICreateInv 2 3; IRecv (MRequest DX 6 6 2 7 (Some (Doc 7 [8] 9 10))) 17 (Doc 14 [15] 11 16);
-   IRecv (MComplete DX 6) 0 (Doc 0 [] 0 0)].
+   IRecv (MComplete DX 6 6) 0 (Doc 0 [] 0 0)].
 
 (* NO RE-POINTING (full).  For every agent state, every peer DID d that resolves to a document there, and EVERY
    sequence of inputs afterwards — messages of any type from anybody, on any thread, carrying any DID, document,
@@ -26,15 +26,36 @@ Theorem attribution_index_stable : forall (a : agent) (is : list input) (k : key
 Proof. intros a is k d. exact (final_mono_keys is a k d). Qed.
 Print Assumptions attribution_index_stable.
 
-(* A completed connection record is terminal, in both variants of the code: no input sequence changes its state,
+(* A completed connection record is terminal (repaired code): no input sequence changes its state,
    thread, own or peer identifier — unless it contains a DIDComm v2 rotation (from_prior) of the peer identifier
    that verifies under a key of the peer identifier's own document, i.e. the peer's own act: nothing a third
    party, who does not hold those keys, can send (connection ids are drawn by the agent and are new when drawn). *)
-Theorem completed_is_terminal : forall (v : variant) (is : list input) (a : agent) (c : cid) (r : conn),
-  fresh_ids v a is -> Forall (not_rotating (c_their r)) is ->
-  record a c = Some r -> c_state r = SCompleted -> record (final v a is) c = Some r.
-Proof. exact run_completed_stable. Qed.
+Theorem completed_is_terminal : forall (is : list input) (a : agent) (c : cid) (r : conn),
+  fresh_ids Fixed a is -> Forall (not_rotating (c_their r)) is ->
+  record a c = Some r -> c_state r = SCompleted -> record (final Fixed a is) c = Some r.
+Proof. intros is a c r. exact (run_completed_stable Fixed is a c r (or_introl eq_refl)). Qed.
 Print Assumptions completed_is_terminal.
+
+(* The code as found: a response whose own @id names a thread in state `requested` (mallory's invitation, accepted by
+   bob and never answered) but whose ~thread member is spelt THID and names bob's COMPLETED thread with alice passed
+   the state check on the first and was handled on the second: bob's completed record got mallory's DID as peer
+   (corpus/C10/response-case-remap.json). *)
+Definition bob_history : list input :=
+  [IAcceptInv DX 2 3 11 12 6 (Doc 7 [8] 9 10); IRecv (MResponse DX 6 6 14 (Some (Doc 14 [15] 11 16)) 0) 0 (Doc 0 [] 0 0);
+   IAcceptInv DX 50 51 21 52 53 (Doc 54 [55] 9 56)].
+Theorem completed_is_terminal_asis_refuted :
+  let hostile := IRecv (MResponse DX 53 6 41 (Some (Doc 41 [20] 21 42)) 0) 0 (Doc 0 [] 0 0) in
+  record (final AsIs agent0 bob_history) 12 = Some (Conn My 6 SCompleted 7 14 3) /\
+  record (final AsIs agent0 (bob_history ++ [hostile])) 12 = Some (Conn My 6 SCompleted 7 41 3) /\
+  record (final Fixed agent0 (bob_history ++ [hostile])) 12 = Some (Conn My 6 SCompleted 7 14 3).
+Proof. vm_compute. repeat split. Qed.
+Print Assumptions completed_is_terminal_asis_refuted.
+
+Theorem completed_is_terminal_asis_partial : forall (is : list input) (a : agent) (c : cid) (r : conn),
+  Forall ids_agree is -> fresh_ids AsIs a is -> Forall (not_rotating (c_their r)) is ->
+  record a c = Some r -> c_state r = SCompleted -> record (final AsIs a is) c = Some r.
+Proof. intros is a c r H. exact (run_completed_stable AsIs is a c r (or_intror H)). Qed.
+Print Assumptions completed_is_terminal_asis_partial.
 
 (* the guard is needed, and is exactly the peer's signature: a rotation signed by the peer moves the identifier, the
    same message signed by anybody else (signer <> iss) does not *)
@@ -70,11 +91,11 @@ Theorem no_crosstalk_asis_refuted :
   foreign Their 6 17 i /\ owns a Their 6 17 /\
   tget (a_thmap (fst (step AsIs a i))) Their 6 = Some 43 /\
   (* bob's complete now completes mallory's record and leaves his own at responded *)
-  (let a' := final AsIs a [i; IRecv (MComplete DX 6) 0 (Doc 0 [] 0 0)] in
+  (let a' := final AsIs a [i; IRecv (MComplete DX 6 6) 0 (Doc 0 [] 0 0)] in
    completed_at a' 43 = true /\ completed_at a' 17 = false) /\
   (let a' := final Fixed (final Fixed agent0 [ICreateInv 2 3; ICreateInv 27 28;
                               IRecv (MRequest DX 6 6 2 7 (Some (Doc 7 [8] 9 10))) 17 (Doc 14 [15] 11 16)])
-                   [i; IRecv (MComplete DX 6) 0 (Doc 0 [] 0 0)] in
+                   [i; IRecv (MComplete DX 6 6) 0 (Doc 0 [] 0 0)] in
    completed_at a' 17 = true /\ record a' 43 = None).
 Proof.
   cbv zeta. split; [split; [reflexivity|cbn; congruence]|].
@@ -197,13 +218,13 @@ Print Assumptions state_machine_is_generated_graph.
    request on a fresh thread 29 naming DID 7 with her own key 20 and endpoint 21 (corpus/C10/repoint-request.json) *)
 Definition alice_history : list input :=
   [ICreateInv 2 3; IRecv (MRequest DX 6 6 2 7 (Some (Doc 7 [8] 9 10))) 17 (Doc 14 [15] 11 16);
-   IRecv (MComplete DX 6) 0 (Doc 0 [] 0 0)].
+   IRecv (MComplete DX 6 6) 0 (Doc 0 [] 0 0)].
 Definition mallory_repoint : list input :=
   [ICreateInv 27 28; IRecv (MRequest DX 29 29 27 7 (Some (Doc 7 [20] 21 30))) 31 (Doc 32 [33] 11 34)].
 (* mallory's own exchange (thread 40) with a new DID 41 whose document lists bob's key 8 next to her key 20 *)
 Definition mallory_keysteal : list input :=
   [ICreateInv 27 28; IRecv (MRequest DX 40 40 27 41 (Some (Doc 41 [20; 8] 21 42))) 43 (Doc 44 [45] 11 46);
-   IRecv (MComplete DX 40) 0 (Doc 0 [] 0 0)].
+   IRecv (MComplete DX 40 40) 0 (Doc 0 [] 0 0)].
 
 Theorem no_repoint_asis_refuted :
   let a := final AsIs agent0 alice_history in
@@ -238,11 +259,11 @@ Example mutual_nonvacuous :
   let B2 := fst (step Fixed B1 (IAcceptInv DX 2 3 11 12 6 docB)) in
   let A2 := fst (step Fixed A1 (IRecv (MRequest DX 6 6 2 7 (Some docB)) 17 myA)) in
   let A3 := final Fixed A2 [other] in
-  let A4 := fst (step Fixed A3 (IRecv (MComplete DX 6) 0 (Doc 0 [] 0 0))) in
+  let A4 := fst (step Fixed A3 (IRecv (MComplete DX 6 6) 0 (Doc 0 [] 0 0))) in
   let A' := final Fixed A4 mallory_repoint in
   snd (step Fixed B1 (IAcceptInv DX 2 3 11 12 6 docB)) = [OSend 11 [3] (MRequest DX 6 6 2 7 (Some docB))] /\
-  snd (step Fixed A1 (IRecv (MRequest DX 6 6 2 7 (Some docB)) 17 myA)) = [OSend 9 [8] (MResponse DX 6 14 (Some myA) 3)] /\
-  snd (step Fixed B2 (IRecv (MResponse DX 6 14 (Some myA) 3) 0 (Doc 0 [] 0 0))) = [OSend 11 [15] (MComplete DX 6)] /\
+  snd (step Fixed A1 (IRecv (MRequest DX 6 6 2 7 (Some docB)) 17 myA)) = [OSend 9 [8] (MResponse DX 6 6 14 (Some myA) 3)] /\
+  snd (step Fixed B2 (IRecv (MResponse DX 6 6 14 (Some myA) 3) 0 (Doc 0 [] 0 0))) = [OSend 11 [15] (MComplete DX 6 6)] /\
   record A' 17 = Some (Conn Their 6 SCompleted 14 7 0) /\ resolve A' 7 = Some docB /\
   record A' 31 = Some (Conn Their 29 SAbandoned 0 7 0) /\ completed_at A3 65 = false /\
   snd (step Fixed A' (IRecv (MPing 8 15) 0 (Doc 0 [] 0 0))) = [OHandled 14 7].
